@@ -22,6 +22,8 @@ const (
 	vpSweepGrabbed
 	vpSweepKey
 	vpSweepChecked
+	vpSetBeforeExit
+	vpDelBeforeExit
 )
 
 func verifPoint(owner any, point int, arg uint64) {}
